@@ -248,3 +248,28 @@ reg('C10', module='c10', level='exploration',
                        'proc_factory_qelim_selfsub': 300},
              'thorough': {'equivalences_compared': 100000,
                           'shapes_checked': 50000}})
+
+reg('C11', module='c11', level='exploration',
+    technique=('runtime monitoring: CNF / Ackermannization outputs checked '
+               'model by model: every interpretation of the original symbols '
+               'is evaluated by the reference evaluator and the residual '
+               'clause set over the fresh symbols is decided by an own DPLL; '
+               'eliminated functions are searched over all function tables'),
+    rule=('Boolean structure over Bool/BV1/BV2 atoms with constants in every '
+          'position, ITE, IFF, shared sub-formulas in both polarities; '
+          'formulas with 1-2 function symbols over Bool/BV1 domains and '
+          'nested applications; distinct = (procedure, formula key)'),
+    level_text=('for every interpretation of the original symbols (all of '
+                'them: finite domains) the input value is compared with the '
+                'satisfiability of the output over the fresh symbols '
+                '(exhaustive by DPLL), in both directions; for '
+                'Ackermannization all function interpretations over the '
+                'small domains are enumerated.'),
+    level_note='trusts vf/refeval.py and the DPLL in vf/c11.py',
+    assumptions=['Boolean-valued array reads are not used as atoms (not in '
+                 'the quantifier text of the property)'],
+    require={'quick': {'cnf_compared': 10000, 'ack_compared': 1000,
+                       'shapes_checked': 10000, 'ack_models_backward': 5000,
+                       'ack_models_forward': 5000},
+             'thorough': {'cnf_compared': 100000, 'ack_compared': 10000,
+                          'shapes_checked': 100000}})
